@@ -442,6 +442,13 @@ class Opaque(Exception):
     pass
 
 
+# (annotation of the parameter, projection read by the factory) -> (operator of C02/Model.v, key of the raw argument data)
+CONVERSIONS = {("ChannelMap", ".value"): ("chanmap_bytes", "channels"),
+               ("<list>", "ChannelMap().value"): ("chanmap_bytes", ""),
+               ("BDAddress", ".value"): ("bdaddr_bytes", "display"),
+               ("<list>", "bytes()"): ("bytes_of_ints", "")}
+
+
 def jval(v):
     """python constant -> json value of the model"""
     if isinstance(v, bool):
@@ -538,6 +545,11 @@ def analyse_factory(domname, regcls, fname, fn):
                 raise Opaque("conditional branches are not constants")
             return {"cond": [p, key if key else "bool()", c1, c2]}
         p, key, d = proj(e)
+        # a conversion performed by a helper class becomes an explicit operator over the RAW argument data
+        ann = next((q.get("ann") or "" for q in params if q["name"] == p), "").replace(" ", "")
+        cv = CONVERSIONS.get((ann, key)) or (CONVERSIONS.get(("<list>", key)) if ann.lower().startswith("list") else None)
+        if cv is not None:
+            return {"conv": [cv[0], p, cv[1], d, key]}
         if d is not None:
             return {"projdef": [p, key, d]}
         return {"proj": [p, key]}
@@ -658,6 +670,8 @@ def analyse_factory(domname, regcls, fname, fn):
         for k in ("proj", "projdef", "cond"):
             if k in e:
                 return {e[k][0]}
+        if "conv" in e:
+            return {e["conv"][1]}
         return set()
 
     def target_classes(target):
@@ -777,6 +791,9 @@ def cexpr(e):
         return "(EProj %s %s)" % (q(e["proj"][0]), q(e["proj"][1]))
     if "projdef" in e:
         return "(EProjDef %s %s %s)" % (q(e["projdef"][0]), q(e["projdef"][1]), cvalue(e["projdef"][2]))
+    if "conv" in e:
+        op, p, k, d = e["conv"][:4]
+        return "(EConv %s %s %s %s)" % (q(op), q(p), q(k), "None" if d is None else "(Some %s)" % cvalue(d))
     p, k, c1, c2 = e["cond"]
     return "(ECond %s %s %s %s)" % (q(p), q(k), cvalue(c1), cvalue(c2))
 
